@@ -56,7 +56,7 @@ func child(dir, histfile string) {
 
 type event struct {
 	kind   string // marker-issued marker-acked marker-other mkdir create write rename unlink sync close
-	path   string // relative to the child's data dir
+	path   string // relative to the child's data dir; for markers: the marker text
 	path2  string
 	data   []byte
 	trunc  bool
@@ -153,9 +153,9 @@ func parseTrace(path, dataDir, markerFile string) ([]event, error) {
 				s := string(data)
 				switch {
 				case strings.HasPrefix(s, "issued "):
-					evs = append(evs, event{kind: "marker-issued"})
+					evs = append(evs, event{kind: "marker-issued", path: strings.TrimSpace(s)})
 				case strings.HasPrefix(s, "acked "):
-					evs = append(evs, event{kind: "marker-acked"})
+					evs = append(evs, event{kind: "marker-acked", path: strings.TrimSpace(s)})
 				default:
 					evs = append(evs, event{kind: "marker-other", path: strings.TrimSpace(s)})
 				}
